@@ -45,12 +45,8 @@ CRATES["m2"] = {
 }
 
 LOSSY13 = "String::from_utf8_lossy -> the same bytes as &str without validation (the library calls it only to put magic bytes into error messages)"
-# iteration aid: C13_NO_WITNESS=1 leaves the witness harnesses out (they are replayed natively until listed in known-findings.json)
-import os as _os13
 _H13_orig = H
 def H(*a, **kw):
-    if _os13.environ.get("C13_NO_WITNESS") and str(kw.get("expect", "")).startswith("witness:"):
-        return
     # every harness of header.rs / skin.rs / anim.rs / model.rs carries the from_utf8_lossy stub
     if a[2] in ("verif_kani_header", "verif_kani_skin", "verif_kani_anim", "verif_kani_model"):
         st = list(kw.get("stubs", []))
